@@ -449,7 +449,7 @@ pub fn apply_child_limits() {
         let lim = libc::rlimit { rlim_cur: 4 << 30, rlim_max: 4 << 30 };
         libc::setrlimit(libc::RLIMIT_AS, &lim);
     }
-    std::thread::spawn(|| {
+    std::thread::spawn(move || {
         let mut last = u64::MAX;
         let mut since = Instant::now();
         loop {
